@@ -24,7 +24,7 @@ RULE = ("E3: numpy.random is owned by the harness; every outcome tuple of every 
         "has >=3 outcomes with pairwise different probabilities")
 BOUNDS = {"quick": "iso classes n<=3 x {(2,2,2) with zeros, (2,3,2)} x styles {def,str,rot,shift}; forward size 1 (size 2 on n<=2 and on n=3 with default style); LW size 1 (2 on n<=2), |E|=1; rejection size 1 (size 2 on n<=2), "
                    "horizon: choice points of <=6 draws, <=40 points per path (cut mass reported); Gibbs BN+MN n<=3, chains of length<=3; simulate with do/evidence/virtual",
-          "thorough": "adds |E|=2, rejection size 2 on n=3, horizon 8"}
+          "thorough": "adds |E|=2 (size 1), forward size 2 on all styles/latents, LW size 2 with |E|=1 on n=3, rejection size 2 on all n<=2 models, horizon 7 draws / 4000 paths"}
 EXHAUSTIVE = {"quick": True, "thorough": True}
 ASSUMPTIONS = ["GibbsSampling documents integer state indices as its chain states", "rejection sampling is explored up to the horizon; the law is checked conditional on termination (exact, see mc/props/c07.py docstring)",
                "partial_samples are given as state numbers with default integer state names"]
@@ -189,7 +189,7 @@ def _bn(st, g, tier, only=None):
             post_all, pe = full_post(joint, evd)
             ev_arg = [State(lab.name(v), lab.state(v, s)) for v, s in evd.items()]
             # mutilated network law for LW: evidence fixed, others follow P(x|pa); weight = prod_e P(e|pa)
-            for size in ((1, 2) if (n <= 2 or tier == "thorough") else (1,)):
+            for size in ((1, 2) if (n <= 2 or (tier == "thorough" and len(e) == 1)) else (1,)):
                 call = ["lw", [list(x) for x in evd.items()], size]
                 if only is not None and only != call:
                     continue
@@ -229,7 +229,7 @@ def _bn(st, g, tier, only=None):
                 _law_check(st, "likelihood_weighted_sample", case, law, info, exp)
             if pe is None or pe == 0:
                 continue
-            sizes = (1, 2) if ((n <= 2 and max(ref.card.values()) == 2) or tier == "thorough") else (1,)
+            sizes = (1, 2) if ((n <= 2 and max(ref.card.values()) == 2) or (tier == "thorough" and n <= 2)) else (1,)
             for size in sizes:
                 call = ["rejection", [list(x) for x in evd.items()], size]
                 if only is not None and only != call:
@@ -249,7 +249,7 @@ def _bn(st, g, tier, only=None):
                     if len(df) != size:
                         return ("ROWS", len(df))
                     return frame_key(df)
-                law, info = explore(fn, max_k=6 if tier == "quick" else 8, max_paths=800 if tier == "quick" else 20000)
+                law, info = explore(fn, max_k=6 if tier == "quick" else 7, max_paths=800 if tier == "quick" else 4000)
                 tot = sum(v for k, v in law.items() if not (isinstance(k, tuple) and k and k[0] == "EXC"))
                 if tot > 0:
                     law = {k: v / tot for k, v in law.items()}  # conditional on termination within the horizon
